@@ -16,7 +16,7 @@ pub fn mon() -> Mon {
         run,
         finish,
         replay,
-        rule: "Receive corpus (same systematic sweeps as C10: every value of header bytes 0-12, every type byte, every control header byte, command 0..255 x direction x data length 0..24 (48 thorough), every completion code, valid and invalid PECs, truncations, every total length, padded and random strings) decoded on four contexts with different address, configuration and history. An independent reference decoder written from the statement decides accept/reject, the payload range, and the set of truthful errors; the library must agree on accept/reject and range, any error it returns must be in the truthful set, and the four contexts must answer identically. Non-trivial = an in-claim input (not one of the statically excluded byte classes) was judged; distinct = distinct in-claim byte strings.",
+        rule: "Receive corpus (same systematic sweeps as C10: every value of header bytes 0-12, every type byte, every control header byte, command 0..255 x direction x data length 0..24 (48 thorough), every completion code, valid and invalid PECs, truncations, every total length, padded and random strings) decoded on four contexts with different address, configuration and history plus three contexts derived from each packet (the addressee: address/EID equal to the packet's destination; the sender; a cross-wired one). An independent reference decoder written from the statement decides accept/reject, the payload range, and the set of truthful errors; the library must agree on accept/reject and range, any error it returns must be in the truthful set, and the four contexts must answer identically. Non-trivial = an in-claim input (not one of the statically excluded byte classes) was judged; distinct = distinct in-claim byte strings.",
         assumptions: &[
             "outside the claim, by the property's text and as a fixed byte-determined list: inputs shorter than 10 bytes, control requests shorter than 12 and responses shorter than 13 bytes, Success responses to commands 0x02/0x08/0x09, control requests with command >= 0x09, responses with completion code >= 6, Success responses with command 0x07 or >= 0x0A",
             "the choice among several true error conditions is free (order of checks is not specified)",
@@ -51,7 +51,21 @@ pub fn check(ctxs: &[&MCTPSMBusContext], x: &[u8], rep: &mut Report) {
     rep.eval();
     let case = || hex(x);
     let r = decide(x);
-    let outs: Vec<DecOut> = ctxs.iter().map(|c| decode(c, x)).collect();
+    let mut outs: Vec<DecOut> = ctxs.iter().map(|c| decode(c, x)).collect();
+    // two more contexts derived from the packet itself: one that IS the addressee (address = the
+    // packet's destination address, both EID cells = its destination EID) and one that is the
+    // sender; "is this for me?" is the most plausible way for a decoder to depend on its context
+    if x.len() >= 7 {
+        use libmctp::mctp_traits::SMBusMCTPRequestResponse;
+        for (addr, eid) in [(x[0] >> 1, x[5]), (x[3] >> 1, x[6]), (x[5], x[0])] {
+            let cc = CtxCfg::simple(addr);
+            outs.push(with_ctx(&cc, |c| {
+                c.get_request().set_eid(eid);
+                c.get_response().set_eid(eid);
+                decode(c, x)
+            }));
+        }
+    }
     let got = &outs[0];
     let dclass = decode_class(x);
     if let RefOut::OutOfClaim(cls) = &r {
